@@ -27,7 +27,12 @@ def simplify_outcome(bp, interps, cards):
     env, f = fresh_build(bp)
     with env:
         b0 = pys.decode(f)
-        s = env.simplifier.simplify(f)
+        try:
+            s = env.simplifier.simplify(f)
+        except RecursionError:
+            raise
+        except Exception as e:      # simplify() documents no rejection of well-typed formulas
+            return ("raised", "%s: %s" % (type(e).__name__, str(e)[:200])), False, b0, b0
         b1 = pys.decode(s)
         changed = s is not f
         try:
@@ -116,10 +121,10 @@ def case_strategy(cfg):
 
 
 CFGS = {
-    "general": Cfg(),
-    "shallow-const": Cfg(max_depth=2, share=35, same_child=25),
+    "general": Cfg(pow=True),
+    "shallow-const": Cfg(max_depth=2, share=35, same_child=25, pow=True),
     "unbounded-binders": Cfg(quant_unbounded=True, max_depth=4),
-    "arith": Cfg(theories={"bool", "int", "real", "quant"}, max_depth=5),
+    "arith": Cfg(theories={"bool", "int", "real", "quant"}, max_depth=5, pow=True),
     "bv": Cfg(theories={"bool", "bv", "quant"}, bv_widths=[1, 2, 3, 4, 8], max_depth=5),
     "str": Cfg(theories={"bool", "int", "str"}, max_depth=3),
     "arr": Cfg(theories={"bool", "int", "bv", "arr", "uf"}, bv_widths=[1, 2, 4], max_depth=4),
